@@ -67,6 +67,13 @@ Datum(e) ==
      ELSE /\ Obl(P, e.sc, <<"datum", Parse(e.bytes).mt, Len(e.bytes)>>)
           /\ Chk(e.r.to_bytes = e.bytes, P, "Datum/bytes-changed-by-decode-encode", e.sc, [bytes |-> e.bytes, got |-> e.r.to_bytes])
           /\ Emit([t |-> "HASHCHK", p |-> P, sig |-> "Datum/hash-not-of-original-bytes", sc |-> e.sc, alg |-> "blake2b256", pre |-> e.bytes, expect |-> e.r.hash])
+          \* two datums of one value in two encodings are two datums (two hashes): a witness set holding both emits both, each as its own bytes
+          /\ (Has(e.r, "pair") /\ Has(e.r.pair, "ok") =>
+                LET w == Parse(e.r.pair.ws)
+                    f == IF IsErr(w) THEN w ELSE GetK(w, 4)
+                    lst == IF IsErr(f) THEN <<>> ELSE (IF f.mt = 6 THEN f.kids[1].kids ELSE f.kids)
+                    have == {Span(e.r.pair.ws, lst[j]) : j \in 1..Len(lst)} IN
+                Chk(e.bytes \in have /\ e.r.pair.fresh \in have, P, "Datum/lost-or-re-encoded-in-a-witness-set", e.sc, [bytes |-> e.bytes, fresh |-> e.r.pair.fresh, ws |-> e.r.pair.ws]))
 Init == l = 1 /\ orig = <<>> /\ touched = {} /\ addedV = <<>> /\ addedB = <<>> /\ alive = FALSE
 Next == /\ l <= Len(Rec)
         /\ LET e == Rec[l] IN CASE e.ev = "Load" -> Load(e) [] e.ev = "Sign" -> Sign(e) [] OTHER -> Datum(e)
